@@ -135,19 +135,20 @@ func (tfg *TaskfileGraph) Merge() (*Taskfile, error) {
 	}
 
 	// Every name is now relative to the root Taskfile: a reference marked as
-	// "of the root Taskfile" is an ordinary reference
+	// "of the root Taskfile" is an ordinary reference (all leading separators
+	// go: "::task", which used to be needed at depth two, keeps working)
 	for task := range rootVertex.Taskfile.Tasks.Values(nil) {
 		if task == nil {
 			continue
 		}
 		for _, dep := range task.Deps {
 			if dep != nil {
-				dep.Task = strings.TrimPrefix(dep.Task, NamespaceSeparator)
+				dep.Task = strings.TrimLeft(dep.Task, NamespaceSeparator)
 			}
 		}
 		for _, cmd := range task.Cmds {
 			if cmd != nil {
-				cmd.Task = strings.TrimPrefix(cmd.Task, NamespaceSeparator)
+				cmd.Task = strings.TrimLeft(cmd.Task, NamespaceSeparator)
 			}
 		}
 	}
